@@ -46,7 +46,8 @@ B2I(p) == IF p THEN 1 ELSE 0
 BinVal(op, rt, x, y) ==
   CASE op = "add" -> Chk(rt, x + y)
     [] op = "sub" -> Chk(rt, x - y)
-    [] op = "mul" -> Chk(rt, x * y)
+    [] op = "mul" -> IF x # 0 /\ Abs(y) > 2147483647 \div Abs(x) THEN UNDEF   \* beyond TLC's integers, hence beyond every modelled type
+                     ELSE Chk(rt, x * y)
     [] op = "div" -> IF y = 0 THEN UNDEF ELSE Chk(rt, TruncDiv(x, y))
     [] op = "gt" -> B2I(x > y)
     [] op = "gt_eq" -> B2I(x >= y)
